@@ -27,6 +27,8 @@ def mk_event(ci, k, frac_ms=True, eid=None, salt=0):
     t = -2000000000000 + ((salt * 1000003 + ci * 7919 + k * 104729 + 1) * 99991) % 8900000000000
     if not frac_ms:
         t -= t % 1000
+    if ci == 0 and k == 0 and salt % 4 == 0:
+        t = (0, 0, -1, 1, 1000, -1000)[(salt // 4) % 6]   # exactly at / next to 1970-01-01T00:00:00
     return (eid or "c%de%d" % (ci, k), t, 30.0 + ci + k / 8.0, -120.0 + ci / 2.0 + k / 16.0, 5.0 + k, 4.0 + ci / 10.0 + k / 100.0)
 
 
